@@ -73,6 +73,16 @@ def check_case(case):
                                     lab, (it.objects, it.properties)))
                     break
         produced[name] = pairs
+        # ---- history independence: a caller editing a returned list / consuming an iterator must not change what a
+        # later call on the same context produces (every call produces every concept exactly once)
+        if isinstance(result, list):
+            del result[::2]
+            result.extend(result[:1])
+        again = [(idx(e), idx(i)) for e, i in getattr(algorithms, name)(ctx)]
+        if sorted(again, key=_key) != sorted(pairs, key=_key):
+            out.append(fail(name + '.repeatable', 'a later call on the same context again produces every concept exactly once '
+                            '(after the caller edited the earlier result in place)',
+                            [_show(p) for p in sorted(pairs, key=_key)][:8], [_show(p) for p in sorted(again, key=_key)][:8]))
         # ---- nothing that is not a formal concept
         for p in pairs:
             if o.up(p[0]) != p[1] or o.dn(p[1]) != p[0]:
